@@ -102,6 +102,23 @@ func genValidIetfPatch(t *rapid.T, cur map[string]interface{}, st *propStats) (m
 			flags["ietf-number-test"] = true
 		}
 	}
+	if rapid.IntRange(0, 7).Draw(t, "markupValue") == 0 {
+		// values with characters that some JSON encoders escape (& < > U+2028 U+2029): equal values are equal however
+		// either side happens to be spelled internally
+		val := rapid.SampledFrom([]interface{}{"https://example.com/x?a=1&b=2", "Alice <alice@example.com>", "a\u2028b\u2029c", "<>&",
+			map[string]interface{}{"q": "a&b", "<k>": []interface{}{"x>y"}}}).Draw(t, "markup")
+		name := rapid.SampledFrom([]string{"contact", "o", "name"}).Draw(t, "markupName")
+		for _, op := range []map[string]interface{}{{"op": "add", "path": "/" + name, "value": val}, {"op": "test", "path": "/" + name, "value": deepCopyValue(val)},
+			{"op": "copy", "from": "/" + name, "path": "/copyOfMarkup"}, {"op": "test", "path": "/copyOfMarkup", "value": deepCopyValue(val)}} {
+			next, err := refPatch6902(work, op)
+			if err != nil {
+				break
+			}
+			ops = append(ops, op)
+			work = next
+			flags["ietf-markup-value"] = true
+		}
+	}
 	if rapid.IntRange(0, 7).Draw(t, "nullMember") == 0 {
 		// a member that exists and holds null is a value like any other: it can be tested, copied and moved
 		name := rapid.SampledFrom([]string{"nothing", "o", "name"}).Draw(t, "nullName")
